@@ -6,10 +6,11 @@
 (* runs its decode loop after every read.  Decode steps are the server's own  *)
 (* reaction, so scripts (hist) hold the client's steps only.                  *)
 (* Live = TRUE: the same behaviours as seen from a client socket.             *)
-(* Legacy = TRUE (self-tests): the pinned tree's decoder / error text.        *)
+(* Legacy (self-tests) may contain "decode" / "encode": the pinned tree's      *)
+(* header-eating decoder / raw error text.                                    *)
 EXTENDS Resp, TLC, Json
 
-CONSTANTS MaxFrames, MaxChunks, Live, Legacy, Univ
+CONSTANTS MaxFrames, MaxChunks, Live, Legacy, Univ, Lemmas
 
 VARIABLE hist
 vars == <<wire, buf, sent, decoded, out, st, hist>>
@@ -56,9 +57,10 @@ DoDeliver ==
        /\ H([op |-> "Deliver", chunk |-> SubSeq(wire, 1, k)])
 
 DoDecode ==
-    /\ LET r == Top(buf) IN
-       IF Legacy THEN LegacyDecode(IF r.k = "frame" THEN Encode(ModelReply(r.v, TRUE)) ELSE <<>>)
-       ELSE IF r.k = "frame" THEN Decode("value", r.v, Encode(ModelReply(r.v, FALSE)))
+    /\ LET r == Top(buf)
+           rb == IF r.k = "frame" THEN EncodeWith(ModelReply(r.v), "encode" \notin Legacy) ELSE <<>> IN
+       IF Legacy # {} THEN LegacyDecode(rb, "decode" \in Legacy)
+       ELSE IF r.k = "frame" THEN Decode("value", r.v, rb)
        ELSE Decode("need", Null, <<>>)
     /\ UNCHANGED hist
 
@@ -70,7 +72,7 @@ DoLiveSend ==
        /\ LiveSend(SubSeq(wire, 1, k))
        /\ H([op |-> "LiveSend", chunk |-> SubSeq(wire, 1, k)])
 DoLiveClose ==
-    /\ LiveClose(Flat([i \in 1..Len(sent) |-> Encode(ModelReply(sent[i], FALSE))]))
+    /\ LiveClose(Flat([i \in 1..Len(sent) |-> Encode(ModelReply(sent[i]))]))
     /\ H([op |-> "LiveClose"])
 
 Next == DoOpen \/ DoDeliver \/ DoDecode \/ DoEnd \/ DoLiveSend \/ DoLiveClose
@@ -93,5 +95,5 @@ InlineAll ==
     /\ Top(InlineWires[1]) = Fr(Arr(<<B(PINGb)>>), 7)
     /\ Top(InlineWires[2]) = Fr(Arr(<<B(<<101, 99, 104, 111>>), B(<<97>>)>>), 10)
     /\ \A w \in {InlineWires[1], InlineWires[2]} : \A n \in 0..Len(w) - 1 : Top(SubSeq(w, 1, n)) = Need
-ASSUME RoundTripAll /\ InlineAll
+ASSUME Lemmas => RoundTripAll /\ InlineAll      \* evaluated once, by the runs that set Lemmas = TRUE
 =============================================================================
